@@ -40,7 +40,7 @@ def gen_cases(tier, seed):
         cases.append({"kind": "deriv", "crystal": {"name": name, "order": ["asis", "random"][rng.integers(2)], "order_seed": int(rng.integers(100)),
                                                    "rot_seed": int(rng.integers(100)) if rng.integers(3) == 0 else None},
                       "smat": smats[rng.integers(len(smats))], "pmat": ["P", "centring"][rng.integers(2)], "fcclass": ["sym", "arbitrary"][rng.integers(2)],
-                      "nac": [None, "wang"][rng.integers(2)] if name in crystals.POLAR else None, "full": bool(rng.integers(2)) or lang == "Py", "lang": lang,  # the Python derivative asserts full layout
+                      "_threads": [1, 2, 3, 5, 7, 16][int(rng.integers(6))], "nac": [None, "wang"][rng.integers(2)] if name in crystals.POLAR else None, "full": bool(rng.integers(2)) or lang == "Py", "lang": lang,  # the Python derivative asserts full layout
                       "seed": int(rng.integers(10 ** 6)), "_cost": 3})
     for i in range(24 if tier == "quick" else 160):
         name = names[i % len(names)]
@@ -169,6 +169,19 @@ def run_case(c):
                 if e2 > tol * gs and e2 > est:
                     bad("group_velocity", "group velocity (%s) differs from grad nu by %.3e (h) / %.3e (h/2), scale %.3e at q=%s" % (mode, e1, e2, gs, np.round(q, 4).tolist()),
                         mode=mode, **feat)
+        # the model changes after group velocities have been computed (masses x t: every frequency and every velocity scales by 1/sqrt(t) exactly)
+        gv_before = np.array(ph.get_group_velocity_at_q(qs[0]))
+        f_before = np.array(ph.get_frequencies(qs[0]))
+        t_m = 1.7
+        ph.masses = np.array(ph.masses) * t_m
+        gv_after = np.array(ph.get_group_velocity_at_q(qs[0]))
+        f_after = np.array(ph.get_frequencies(qs[0]))
+        obs["n_gv_after_model_change"] = obs.get("n_gv_after_model_change", 0) + 1
+        if np.abs(f_after - f_before / np.sqrt(t_m)).max() < 1e-9 * max(np.abs(f_before).max(), 1e-12):
+            if np.abs(gv_after - gv_before / np.sqrt(t_m)).max() > 1e-8 * max(np.abs(gv_before).max(), 1e-12):
+                bad("group_velocity_stale", "after the masses were multiplied by %.1f the frequencies scale by 1/sqrt(t) but the group velocities at q=%s do not (max deviation %.3e of %.3e)" % (
+                    t_m, np.round(qs[0], 4).tolist(), np.abs(gv_after - gv_before / np.sqrt(t_m)).max(), np.abs(gv_before).max()), **feat)
+        ph.masses = np.array(ph.masses) / t_m
         # the same through the band-structure route with band connection (modes re-ordered along the path): the velocity reported in slot b must be
         # the gradient of the frequency reported in slot b - reference: the (frequency, velocity) pairs of the single-q route at the same q
         path = np.array([qs[0] + t * (qs[1] - qs[0]) for t in np.linspace(0, 1, 9)])
